@@ -25,6 +25,24 @@
      EnvIndep    out[k] does not depend on env
      ObjFix      stage-2 objects = stage-3 objects (the compiler reproduces itself)
 
+   Build context (added in the fifth round after seeded change C12-8).  The
+   Makefile's stage-2 rule does not compile the sources in the same context as
+   the reference compiler does: stage 1 is compiled by cc against cc's own
+   <float.h>, <limits.h>, predefined macros ..., stages 2 and 3 by chibicc against
+   the bundled include/ directory and chibicc's predefined macros.  ctx[k] is
+   that context ("host" for k = 1, "self" for k > 1).  A source text whose
+   meaning depends on it - init_macros() taking __LDBL_MANT_DIG__ from
+   <float.h>, an `#ifdef __GNUC__` branch that changes what the compiler does -
+   gives  beh[1] # beh[2] = beh[3]:  stage 2 reproduces itself (ObjFix and
+   SelfAgree hold) and still is not the reference compiler, so only the
+   comparison with stage 1 on an input that reaches the context-dependent part
+   can show it.  CtxDep = TRUE leaves the semantics per context arbitrary
+   (Bootstrap_ctl_CtxDep.cfg: StageAgree must be violated while SelfAgree and
+   ObjFix hold).  The inputs that reach such parts are names: everything the
+   compiler knows without the input having declared it - predefined macros,
+   keywords, builtins, attribute and pragma names (harness/c12.py family
+   `vocab`, taken from the string tables of the three stage binaries).
+
    Model checking (Bootstrap_mc.cfg): the behaviour of each binary is a function
    beh[k] chosen in Init.  With Correct = TRUE a binary's behaviour is the
    semantics `sem` of the source text (cc is assumed correct for stage 1, and
@@ -36,7 +54,11 @@
 EXTENDS Integers, Sequences, FiniteSets, TLC
 
 CONSTANTS Inputs, Opts, Envs, Results, ObjDigests,
-          Correct            \* TRUE: stages behave as the source semantics says
+          Correct,           \* TRUE: stages behave as the source semantics says
+          CtxDep             \* TRUE: the meaning of the source text may depend on the context it is compiled in
+
+Contexts == {"host", "self"}
+CtxOf(k) == IF k = 1 THEN "host" ELSE "self"
 
 Stages == 1..3
 NoBin == [built |-> FALSE, by |-> "-", objs |-> "-"]
@@ -74,6 +96,8 @@ StageAgree == \A x, y \in DOMAIN out :
                 (x[2] = y[2] /\ x[3] = y[3] /\ x[4] = y[4]) => out[x] = out[y]
 EnvIndep   == \A x, y \in DOMAIN out :
                 (x[1] = y[1] /\ x[2] = y[2] /\ x[3] = y[3]) => out[x] = out[y]
+SelfAgree  == \A x, y \in DOMAIN out :          \* (implied by StageAgree: what a stage2-vs-stage3 comparison alone establishes)
+                (x[1] > 1 /\ y[1] > 1 /\ x[2] = y[2] /\ x[3] = y[3] /\ x[4] = y[4]) => out[x] = out[y]
 ObjFix     == (bin[2].built /\ bin[3].built) => bin[2].objs = bin[3].objs
 BuildOrder == \A k \in 2..3 : bin[k].built => bin[k - 1].built /\ bin[k].by = k - 1
 
@@ -86,9 +110,10 @@ Init ==
   /\ bin = [k \in Stages |-> NoBin]
   /\ out = [x \in {} |-> 0]
   /\ env \in Envs
-  /\ sem \in [Inputs \X Opts -> Results]
+  /\ sem \in [Contexts \X Inputs \X Opts -> Results]
+  /\ (~CtxDep => \A i \in Inputs, o \in Opts : sem[<<"host", i, o>>] = sem[<<"self", i, o>>])
   /\ IF Correct
-       THEN /\ beh = [x \in Stages \X Inputs \X Opts \X Envs |-> sem[<<x[2], x[3]>>]]
+       THEN /\ beh = [x \in Stages \X Inputs \X Opts \X Envs |-> sem[<<CtxOf(x[1]), x[2], x[3]>>]]
             /\ objOf \in [2..3 -> {CHOOSE d \in ObjDigests : TRUE}]
        ELSE /\ beh \in BehSpace
             /\ objOf \in [2..3 -> ObjDigests]
